@@ -48,16 +48,8 @@ theorem closePc1_drained (s : State) (p : Nat) (hd : Drained s) : Drained (close
         · exact Or.inl rfl
         · exact Or.inr ⟨rfl, rfl⟩
 
-theorem closePc_drained (s : State) (p : Nat) (hd : Drained s) : Drained (closePc s p) := by
-  unfold closePc
-  split
-  · exact hd
-  · split
-    · exact hd
-    · dsimp only
-      split
-      · exact closePc1_drained _ _ (closePc1_drained _ _ hd)
-      · exact closePc1_drained _ _ hd
+theorem closePc_drained (s : State) (p : Nat) (hd : Drained s) : Drained (closePc s p) :=
+  closePc1_drained s p hd
 
 theorem closePcsWhere_drained (sel : PConn → Bool) (s : State) (hd : Drained s) : Drained (closePcsWhere sel s) := by
   unfold closePcsWhere
